@@ -68,7 +68,8 @@ NEG = {
             for b in ("bandwidth_min_2", "growth_closed_at_1", "nan_unchecked")],
     "C17": [("anomaliser-inclusive-comparison", "Anomaliser", an_consts(N=3, Cmp="inclusive"), ["FlagsExactly"], "Init", None),
             ("anomaliser-merges-adjacent", "Anomaliser", an_consts(N=3, Adjacent="merge"), ["FlagsExactly"], "Init", None),
-            ("anomaliser-fits-wrapped", "Anomaliser", an_consts(N=3, FitTarget="wrapped"), ["WrappedUntouched"], "Init", None)],
+            ("anomaliser-fits-wrapped", "Anomaliser", an_consts(N=3, FitTarget="wrapped"), ["WrappedUntouched"], "Init", None),
+            ("anomaliser-keeps-first-clone", "Anomaliser", an_consts(N=3, LoHi=1, Rounds=2, CloneWhen="first_fit"), ["FlagsExactly"], "Init", None)],
     "C18": [("generators-upper-bound-only", "Generators", dict(N=3, P=1, MaxK=1, Check="upper_only", Emit=False, NSlices=1, Slice=0, Profile="distinct"),
              ["RaisesIffInconsistent", "NoSilentWrap"], "Init", None)],
 }
